@@ -497,6 +497,8 @@ def divfree_velocity(rng, mc):
     arrs = [np.zeros(s) for s in shapes]
     rf = np.asarray(m.facecenters._x, dtype=float)
     fam = rng.choice(["uniform", "radial", "stream", "zero"])
+    if kind == "cart3" and rng.random() < 0.4:
+        fam = "stream"
     if kind.startswith("cart"):
         if fam == "stream" and mc.dim == 2:
             nx, ny = mc.dims
@@ -505,6 +507,20 @@ def divfree_velocity(rng, mc):
             arrs[0] = (psi[:, 1:] - psi[:, :-1]) / dy[None, :]
             arrs[1] = -(psi[1:, :] - psi[:-1, :]) / dx[:, None]
             return arrs, "stream"
+        if fam == "stream" and mc.dim == 3:
+            # recirculating flow in a random coordinate plane (mixed signs on two face families), uniform along the third axis
+            a, b = rng.choice([(0, 1), (0, 2), (1, 2)])
+            c = 3 - a - b
+            na, nb_ = mc.dims[a], mc.dims[b]
+            psi = rand_vals(rng, (na + 1, nb_ + 1))
+            da = np.diff(mc.faces[a]); db = np.diff(mc.faces[b])
+            ua = (psi[:, 1:] - psi[:, :-1]) / db[None, :]          # (na+1, nb)
+            ub = -(psi[1:, :] - psi[:-1, :]) / da[:, None]         # (na, nb+1)
+            arrs[a][...] = np.expand_dims(ua, c)
+            arrs[b][...] = np.expand_dims(ub, c)
+            if rng.random() < 0.5:
+                arrs[c][...] = rng.choice([1.0, -2.0, 0.5])
+            return arrs, "stream3"
         for ax in range(mc.dim):
             arrs[ax][...] = rng.choice([0.0, 1.0, -2.0, 0.5])
         return arrs, "uniform"
